@@ -525,7 +525,10 @@ class Gen:
             elif k <= 17 and depth < 2:                          # try
                 self.f("try")
                 L.append(f"{ind}try:")
-                body = self.block(dict(env), depth + 1, ind + "    ", ctx)
+                # the body starts with a call: a try body that cannot raise at all (`try: return 1`) makes the handler
+                # and everything after the statement dead code, and mypyc then emits C that does not compile
+                # (undeclared registers; incidental finding, see the report)
+                body = [f"{ind}    log('try')"] + self.block(dict(env), depth + 1, ind + "    ", ctx)
                 if r.random() < 0.4 and not body[-1].startswith(ind + "    return"):
                     exc = r.choice(["ValueError", "KeyError", "E0", "IndexError", "RuntimeError"])
                     self.f("raise")
